@@ -37,6 +37,7 @@ import (
 var simResources = []sim.Resource{
 	{Group: "ctl.example.com", Version: "v1", Resource: "things", Kind: "Thing", Namespaced: true, HasStatus: true},
 	{Group: "ctl.example.com", Version: "v1", Resource: "clusterthings", Kind: "ClusterThing", Namespaced: false, HasStatus: true},
+	{Group: "ctl.example.com", Version: "v1", Resource: "plainthings", Kind: "PlainThing", Namespaced: true, HasStatus: false}, // a parent kind without the status subresource
 	{Group: "", Version: "v1", Resource: "pods", Kind: "Pod", Namespaced: true, HasStatus: true},
 	{Group: "apps.example.com", Version: "v1", Resource: "widgets", Kind: "Widget", Namespaced: true, HasStatus: false},
 	{Group: "", Version: "v1", Resource: "namespaces", Kind: "Namespace", Namespaced: false, HasStatus: true},
